@@ -22,14 +22,20 @@ def _fmt_obj(modes, ordering):
 
 
 def raw_structure(t):
-    """(levels, vals) read from the raw arrays, never through items()/to_dok()."""
+    """(levels, vals) read from the cffi struct directly, never through taco_indices/items()/to_dok()."""
+    from ..kernels import Raw
+
+    r = Raw.of_tensor(t)
+    levels = [[Atom("dense")] if lv[0] == "d" else [Atom("compressed"), list(lv[1]), list(lv[2])] for lv in r.levels]
+    return levels, r.vals
+
+
+def library_structure(t):
+    """the library's own export of the structure (used by pickling): Tensor.taco_indices / taco_vals"""
     levels = []
     for mode, lvl in zip(t.modes, t.taco_indices):
-        if mode.character == "d":
-            levels.append([Atom("dense")])
-        else:
-            levels.append([Atom("compressed"), list(lvl[0]), list(lvl[1])])
-    return levels, t.taco_vals
+        levels.append([Atom("dense")] if mode.character == "d" else [Atom("compressed"), list(lvl[0]), list(lvl[1])])
+    return levels, list(t.taco_vals)
 
 
 def stored_sx(dims, ordering, levels, vals):
@@ -133,10 +139,25 @@ def run_case(chk: Check, modes, ordering, dims, coords, vals, entry, requests, p
         chk.violation(f"constructor raised {type(e).__name__} on in-range input: {e}", case)
         return
     levels, tvals = raw_structure(t)
-    items = [[list(c), int(v)] for c, v in t.items()]
+    try:
+        lib = library_structure(t)
+        if lib != (levels, tvals):
+            chk.violation("Tensor.taco_indices/taco_vals (the structure pickling exports) differ from the stored arrays", case,
+                          expected=sx([levels, [int(v) for v in tvals]])[:400], got=sx([lib[0], [int(v) for v in lib[1]]])[:400])
+    except Exception as e:  # noqa: BLE001
+        chk.violation(f"Tensor.taco_indices/taco_vals raised {type(e).__name__}: {e}", case)
+    try:
+        items = [[list(c), int(v)] for c, v in t.items()]
+    except Exception as e:  # noqa: BLE001
+        chk.violation(f"items() raised {type(e).__name__}: {e}", case)
+        return
     # ---- property oracle on the real code -------------------------------------------------
     exp = expected_dok(coords, vals)
-    got = t.to_dok()
+    try:
+        got = t.to_dok()
+    except Exception as e:  # noqa: BLE001
+        chk.violation(f"to_dok() raised {type(e).__name__}: {e}", case)
+        return
     if got != exp:
         f = chk.match_known(lambda f: f.get("signature", {}).get("predicate") == "non-involutive-ordering"
                             and list(ordering) != [list(ordering).index(i) for i in range(len(ordering))])
